@@ -405,8 +405,11 @@ Fixpoint last_mint (l : list (Z * (Z * N))) : option (Z * (Z * N)) :=
 
 (* ---- Validate (common/validation.go), fork = false ---------------------- *)
 
-(* validateReferences: every reference is a stored, finalized transaction *)
+(* validateReferences: at most ReferencesCountLimit references, every one a
+   stored AND finalized transaction (ReadTransaction returns a body and a
+   non-empty finalization) *)
 Definition refs_ok (s : lstate) (refs : list N) : bool :=
+  (Z.of_nat (length refs) <=? Consts.KsReferencesCountLimit) &&
   forallb (fun r => amem r (st_bodies s) && amem r (st_finals s)) refs.
 
 (* validateUTXO: which transaction types may spend an output of a given type *)
